@@ -1,0 +1,68 @@
+//go:build verif
+
+// Verification hooks (build tag "verif" only).
+// Exported aliases of unexported line recognizers and byte classifiers
+// so that external checkers can enumerate them directly.
+// This file only adds code; nothing here is compiled without the tag.
+
+package commonmark
+
+// VerifThematicBreak exposes parseThematicBreak.
+func VerifThematicBreak(line []byte) (end int) { return parseThematicBreak(line) }
+
+// VerifATXHeading exposes parseATXHeading.
+func VerifATXHeading(line []byte) (level int, content Span) {
+	h := parseATXHeading(line)
+	return h.level, h.content
+}
+
+// VerifSetextUnderline exposes parseSetextHeadingUnderline.
+func VerifSetextUnderline(line []byte) (level int) { return parseSetextHeadingUnderline(line) }
+
+// VerifCodeFence exposes parseCodeFence.
+func VerifCodeFence(line []byte) (char byte, n int, info Span) {
+	f := parseCodeFence(line)
+	return f.char, f.n, f.info
+}
+
+// VerifListMarker exposes parseListMarker.
+func VerifListMarker(line []byte) (delim byte, n int, end int) {
+	m := parseListMarker(line)
+	return m.delim, m.n, m.end
+}
+
+// VerifIsASCIIPunctuation exposes isASCIIPunctuation.
+func VerifIsASCIIPunctuation(c byte) bool { return isASCIIPunctuation(c) }
+
+// VerifIsHex exposes isHex.
+func VerifIsHex(c byte) bool { return isHex(c) }
+
+// VerifIsASCIIControl exposes isASCIIControl.
+func VerifIsASCIIControl(c byte) bool { return isASCIIControl(c) }
+
+// VerifIsASCIILetter exposes isASCIILetter.
+func VerifIsASCIILetter(c byte) bool { return isASCIILetter(c) }
+
+// VerifIsASCIIDigit exposes isASCIIDigit.
+func VerifIsASCIIDigit(c byte) bool { return isASCIIDigit(c) }
+
+// VerifIsSpaceTabOrLineEnding exposes isSpaceTabOrLineEnding.
+func VerifIsSpaceTabOrLineEnding(c byte) bool { return isSpaceTabOrLineEnding(c) }
+
+// VerifIsUnicodeWhitespace exposes isUnicodeWhitespace.
+func VerifIsUnicodeWhitespace(c rune) bool { return isUnicodeWhitespace(c) }
+
+// VerifIsUnicodePunctuation exposes isUnicodePunctuation.
+func VerifIsUnicodePunctuation(c rune) bool { return isUnicodePunctuation(c) }
+
+// VerifCharacterEscape exposes parseCharacterEscape.
+func VerifCharacterEscape(text []byte) (end int) { return parseCharacterEscape(text) }
+
+// VerifAutolink exposes parseAutolink.
+func VerifAutolink(text []byte) (end int) { return parseAutolink(text) }
+
+// VerifEmphasisFlags exposes emphasisFlags as (canOpen, canClose).
+func VerifEmphasisFlags(source []byte, span Span) (canOpen, canClose bool) {
+	f := emphasisFlags(source, span)
+	return f&openerFlag != 0, f&closerFlag != 0
+}
